@@ -68,5 +68,11 @@ Progress == phase = "run" => (p.exited <=> ~(CanRun(p) \/ CanExit(p)))
 EmitCase == (Emit = "all" /\ Done) =>
    PrintT(<<"CASE", ToJson([hasfile |-> inv.file # << >>, file |-> FileText(inv), exprs |-> ExprTexts(inv),
                             lines |-> [k \in 1..Len(prog) |-> Text(prog[k])],
-                            status |-> p.status, stdout |-> p.stdout, stderr |-> p.stderr, log |-> p.log])>>)
+                            status |-> p.status, stdout |-> p.stdout, stderr |-> p.stderr, log |-> p.log,
+                            \* not part of C22 (adopted rules of the run loop), used to classify deviations as drift:
+                            \* prints of the failing input, and what the inputs never executed would have done
+                            dropped |-> p.dropped,
+                            after |-> LET rs == Results(p.st, p.queue) IN
+                                        [k \in 1..Len(rs) |-> [ok |-> rs[k].outcome = "ok", out |-> rs[k].out,
+                                                               res |-> rs[k].res]]])>>)
 =============================================================================
